@@ -301,6 +301,9 @@ def run_history(P):
                              "batch_base": v.base_offset, "batch_uids_sig": hash(tuple(C.uid_of(x.value) for x in v.records)),
                              "append_time": sb.append_time - H.get("t0", 0)})
         H["logs"][str(p)] = rows
+    from vf import simharness as _sh
+    H["active_idle_drops"] = [d for d in _sh.ACTIVE_IDLE_DROPS if d["t"] >= H.get("t0", 0)]
+    del _sh.ACTIVE_IDLE_DROPS[:]
     H["arrivals"] = [{k: v for k, v in e.items() if k not in ("kind",)} for e in cl.events if e["kind"] == "produce_arrival"]
     for a in H["arrivals"]:
         a["t"] = a["t"] - H.get("t0", 0)
